@@ -41,7 +41,7 @@ func ruleR31() *Rule {
 	return &Rule{
 		ID:    "R31",
 		Title: "FILLS-ALL: a decoder that fills a reused object stores every field of it on every successful path",
-		Props: []string{"C01", "C03", "C06", "C07"},
+		Props: []string{"C01", "C03", "C06", "C07", "C12"},
 		Floor: floorFor("R31"),
 		Run: func(c *RuleCtx) {
 			for i := range fillTable {
@@ -191,7 +191,7 @@ func ruleR31() *Rule {
 					}
 				}
 				c.add(statusOf(okc && n > 0), sl.typ+"."+sl.fn+"/slot-cleared", c.fpos(fn), fmt.Sprintf("the reused result slot %s.%s is cleared as a whole on every path that hands it out", sl.typ, sl.field),
-					"a path returns the reused slot without clearing it: fields not overwritten for this hit keep the previous hit's values", []string{"C07", "C01"}, nil)
+					"a path returns the reused slot without clearing it: fields not overwritten for this hit keep the previous hit's values", slotProps(sl.typ), nil)
 			}
 		},
 	}
@@ -239,6 +239,13 @@ func lastHitRole(cell *ssa.Alloc) string {
 		return cell.Comment
 	}
 	return role
+}
+
+func slotProps(typ string) []string {
+	if typ == "SynonymsIterator" {
+		return []string{"C07", "C12"}
+	}
+	return []string{"C07", "C01"}
 }
 
 func ruleR32() *Rule {
